@@ -1,16 +1,16 @@
-// F16 (C19, known finding): yaclib_std::atomic<T> under the fault-injection backends does not accept assignment from T.
+// F16 (C19, fixed in /repo 7d5f8a1): yaclib_std::atomic<T> under the fault-injection backends does not accept assignment from T.
 //   THREAD backend:  `a = x`  and  `v = x` (volatile)  are ill-formed
 //   FIBER  backend:  `v = x` (volatile) is ill-formed
 // The wrapper hierarchy (include/yaclib/fault/detail/atomic.hpp) declares `T operator=(T)` only in AtomicBase; every
 // derived class (AtomicFloatingBase, AtomicIntegralBase, Atomic, the pointer specialisation) has an implicitly declared
 // (deleted) copy assignment that HIDES it, so `a = x` finds only the deleted copy assignment.  std::atomic<T> supports
 // both forms (the property lists store among the operations; `a = x` is std::atomic's store-and-return-value).
-// A repair is a `using Base::operator=;` in each derived class; it was not made because the remaining time did not
-// allow re-validating every configuration — recorded instead, keyed by the three witnesses.
+// Repair: `using Base::operator=;` in each derived class of both hierarchies and an operator=(T) of its own for the
+// fiber implementation (baseline 30/30, FIBER 42/42, THREAD 40/40).
 //
 // Replay (syntax only; <bt> / <bf> = build directories configured with -DYACLIB_FAULT=THREAD / FIBER):
 //   g++ -std=c++20 -fsyntax-only -I/repo/include -I<bt>/include F16_atomic_assignment_from_value_is_ill_formed.cpp
-//   -> error: use of deleted function '...Atomic<std::atomic<long>, long>::operator=(...&&)'
+//   before the fix -> error: use of deleted function '...Atomic<std::atomic<long>, long>::operator=(...&&)'
 #include <yaclib_std/atomic>
 
 int main() {
